@@ -847,7 +847,7 @@ def do_indent(
         indention = Markup(indention)
         newline = Markup(newline)
 
-    s += newline  # this quirk is necessary for splitlines method
+    s = s + newline  # this quirk is necessary for splitlines method
 
     if blank:
         rv = (newline + indention).join(s.splitlines())
